@@ -441,6 +441,8 @@ fn thread_cpu_ms(tid: usize) -> Option<u64> {
     Some(ts.tv_sec as u64 * 1000 + ts.tv_nsec as u64 / 1_000_000)
 }
 
+static POOL_READY: std::sync::atomic::AtomicBool = std::sync::atomic::AtomicBool::new(false);
+
 pub fn run_cases(area: &Area, cmds: &[String], dir: &str, dist: &Dist) {
     use std::sync::atomic::{AtomicU64, AtomicUsize, Ordering};
     use std::sync::{Arc, Mutex};
@@ -464,7 +466,10 @@ pub fn run_cases(area: &Area, cmds: &[String], dir: &str, dist: &Dist) {
             let slot = Arc::new((AtomicUsize::new(0), AtomicU64::new(0), AtomicUsize::new(0), AtomicU64::new(0)));
             slots.lock().unwrap().push(slot.clone());
             let (cmds, results, next, done) = (cmds.clone(), results.clone(), next.clone(), done.clone());
-            std::thread::Builder::new().stack_size(64 << 20).spawn(move || loop {
+            std::thread::Builder::new().name("lzv-pool".into()).stack_size(64 << 20).spawn(move || loop {
+                while !POOL_READY.load(Ordering::SeqCst) {
+                    std::thread::sleep(std::time::Duration::from_millis(1));
+                }
                 let i = next.fetch_add(1, Ordering::SeqCst);
                 if i >= cmds.len() {
                     slot.0.store(0, Ordering::SeqCst);
@@ -508,6 +513,9 @@ pub fn run_cases(area: &Area, cmds: &[String], dir: &str, dist: &Dist) {
     for _ in 0..16 {
         spawn_worker();
     }
+    // every pool thread exists before the first case runs (areas that take a census of the process's
+    // threads rely on it)
+    POOL_READY.store(true, Ordering::SeqCst);
     while done.load(Ordering::SeqCst) < n {
         std::thread::sleep(std::time::Duration::from_millis(50));
         let t = now();
